@@ -8,17 +8,23 @@ Variable s : bytes.
 Let b0 := truthy_str s.
 
 (* every hole in the data carries the truthiness of s *)
+Definition cons_c1 (c : bytes + bool) : bool := match c with inl _ => true | inr b => Bool.eqb b b0 end.
+Definition cons_h (h : hstr) : bool := forallb cons_c1 h.
 Fixpoint cons_v (v : val) : bool :=
-  match v with VHole b => Bool.eqb b b0 | VList l => forallb cons_v l | _ => true end.
+  match v with VHole b => Bool.eqb b b0 | VHStr h => cons_h h | VList l => forallb cons_v l | _ => true end.
 Definition cons_e (r : env) : bool := forallb (fun kv => cons_v (snd kv)) r.
+Fixpoint cons_c (c : clo) : bool :=
+  match c with CNone => true | CSome r _ o => cons_e r && cons_c o end.
+Fixpoint sclo (c : clo) : clo :=
+  match c with CNone => CNone | CSome r ts o => CSome (senv s r) ts (sclo o) end.
 
 Section ValInd.
   Variable P : val -> Prop.
   Hypotheses (H1 : P VNil) (H2 : forall b, P (VBool b)) (H3 : forall x, P (VStr x))
-             (H4 : forall l, Forall P l -> P (VList l)) (H5 : forall b, P (VHole b)).
+             (H4 : forall l, Forall P l -> P (VList l)) (H5 : forall b, P (VHole b)) (H6 : forall h, P (VHStr h)).
   Fixpoint val_ind' (v : val) : P v :=
     match v with
-    | VNil => H1 | VBool b => H2 b | VStr x => H3 x | VHole b => H5 b
+    | VNil => H1 | VBool b => H2 b | VStr x => H3 x | VHole b => H5 b | VHStr h => H6 h
     | VList l => H4 l ((fix go (l : list val) : Forall P l :=
                           match l with [] => Forall_nil _ | x :: t => Forall_cons _ (val_ind' x) (go t) end) l)
     end.
@@ -31,15 +37,46 @@ Proof.
   induction r as [|[k w] t IH]; cbn; [discriminate|]. intro H. apply andb_true_iff in H. destruct H.
   destruct (Nat.eqb k x); [intros [= <-]; assumption|auto].
 Qed.
-Lemma truthy_subst v : cons_v v = true -> truthy (subst s v) = truthy v.
-Proof. destruct v; cbn; auto. intro H. apply Bool.eqb_prop in H. now subst. Qed.
+
+Lemma fill_lit h t : forallb is_lit h = true -> fill t h = fill [] h.
+Proof.
+  unfold fill. induction h as [|c h IH]; cbn; [reflexivity|]. intro H. apply andb_true_iff in H. destruct H as [Hc Hh].
+  rewrite IH by assumption. destruct c; [reflexivity|discriminate].
+Qed.
+
+(* deciding truthiness without looking into a hole gives the answer the concrete value gives *)
+Lemma truthy_subst v b : cons_v v = true -> truthy v = Some b -> truthy (subst s v) = Some b.
+Proof.
+  destruct v as [| b' | x | l | b' | h]; cbn [truthy subst cons_v]; auto.
+  - intros H [= <-]. apply Bool.eqb_prop in H. now subst.
+  - intro Hc. destruct (forallb is_lit h) eqn:El.
+    + intros [= <-]. now rewrite (fill_lit h s El).
+    + destruct h as [|[x|b'] [|c2 h2]]; try discriminate. intros [= <-].
+      cbn in Hc. rewrite andb_true_r in Hc. apply Bool.eqb_prop in Hc. subst b'.
+      unfold fill. cbn. now rewrite app_nil_r.
+Qed.
+Lemma truthy_r_subst v b : cons_v v = true -> truthy_r v = Ok b -> truthy_r (subst s v) = Ok b.
+Proof.
+  unfold truthy_r. intros Hc H. destruct (truthy v) as [b'|] eqn:E; [|discriminate]. injection H as <-.
+  now rewrite (truthy_subst v b' Hc E).
+Qed.
+
+Lemma fill_fill h : fill [] [@inl bytes bool (fill s h)] = fill s h.
+Proof. unfold fill. cbn. now rewrite app_nil_r. Qed.
+Lemma fill_cons_lit t b h : fill t (@inl bytes bool b :: h) = b ++ fill t h.
+Proof. reflexivity. Qed.
 Lemma sprint_subst v : fill [] (sprint (subst s v)) = fill s (sprint v).
 Proof.
-  induction v as [| b | x | l IH | b] using val_ind'; try reflexivity.
+  induction v as [| b | x | l IH | b | h] using val_ind'; try reflexivity.
   - destruct b; reflexivity.
-  - cbn [subst sprint]. unfold fill in *. rewrite !flat_map_app. f_equal. f_equal.
-    induction IH as [|v l Hv _ IHl]; cbn [map flat_map]; [reflexivity|].
-    rewrite !flat_map_app, Hv, IHl. reflexivity.
+  - cbn [subst sprint]. rewrite !fill_app. f_equal. f_equal.
+    assert (G : fill [] (flat_map (fun x => inl sp :: sprint x) (map (subst s) l))
+                = fill s (flat_map (fun x => inl sp :: sprint x) l)).
+    { induction IH as [|v l Hv _ IHl]; cbn [map flat_map app]; [reflexivity|].
+      rewrite !fill_cons_lit, !fill_app, Hv, IHl. reflexivity. }
+    destruct l as [|v l]; [reflexivity|]. cbn [map flat_map tl app] in *.
+    rewrite !fill_cons_lit in G. now apply app_inv_head in G.
+  - cbn [subst sprint]. apply fill_fill.
 Qed.
 Lemma interp_subst r v : fill [] (interp (senv s r) v) = fill s (interp r v).
 Proof.
@@ -51,81 +88,219 @@ Qed.
 Definition rel (dh dc : list onode) : Prop := map oflat dc = map (ofill s) dh.
 Lemma rel_app a b a' b' : rel a a' -> rel b b' -> rel (a ++ b) (a' ++ b').
 Proof. unfold rel. intros H1 H2. now rewrite !map_app, H1, H2. Qed.
+Lemma rel_nil : rel [] [].
+Proof. reflexivity. Qed.
 
-Lemma attr_subst r a : cons_e r = true ->
-  map (fun kv : bytes * hstr => (fst kv, [@inl bytes unit (fill [] (snd kv))])) (eval_attr (senv s r) a)
-  = map (fun kv : bytes * hstr => (fst kv, [@inl bytes unit (fill s (snd kv))])) (eval_attr r a).
+Definition arel (a a' : list (bytes * hstr)) : Prop :=
+  map (fun kv : bytes * hstr => (fst kv, [@inl bytes bool (fill [] (snd kv))])) a'
+  = map (fun kv : bytes * hstr => (fst kv, [@inl bytes bool (fill s (snd kv))])) a.
+
+Lemma attr_subst r a x : cons_e r = true -> eval_attr r a = Ok x ->
+  exists x', eval_attr (senv s r) a = Ok x' /\ arel x x'.
 Proof.
-  intro Hr. destruct a as [k v | k x]; cbn.
-  - now rewrite interp_subst.
-  - rewrite lookup_senv. destruct (lookup r x) eqn:E; cbn; [|reflexivity].
-    rewrite truthy_subst by (eapply lookup_cons; eauto).
-    destruct (truthy v); cbn; [|reflexivity]. now rewrite sprint_subst.
+  intros Hr H. destruct a as [k v | k y]; cbn in *.
+  - injection H as <-. eexists. split; [reflexivity|]. unfold arel. cbn. now rewrite interp_subst.
+  - rewrite lookup_senv. destruct (lookup r y) as [w|] eqn:E; cbn in *.
+    + destruct (truthy_r w) as [b| | |] eqn:Et; try discriminate. cbn in H. injection H as <-.
+      rewrite (truthy_r_subst w b (lookup_cons _ _ _ Hr E) Et). cbn.
+      eexists. split; [reflexivity|]. unfold arel. destruct b; cbn; [now rewrite sprint_subst|reflexivity].
+    + injection H as <-. eexists. split; reflexivity.
+Qed.
+Lemma attrs_subst r l x : cons_e r = true -> eval_attrs r l = Ok x ->
+  exists x', eval_attrs (senv s r) l = Ok x' /\ arel x x'.
+Proof.
+  intro Hr. revert x. induction l as [|a l IH]; intros x H; cbn in *.
+  - injection H as <-. exists []. split; reflexivity.
+  - destruct (eval_attr r a) as [u| | |] eqn:Ea; try discriminate. cbn in H.
+    destruct (eval_attrs r l) as [w| | |] eqn:El; try discriminate. cbn in H. injection H as <-.
+    destruct (attr_subst _ _ _ Hr Ea) as [u' [Hu Ru]]. destruct (IH _ eq_refl) as [w' [Hw Rw]].
+    rewrite Hu. cbn. rewrite Hw. cbn. eexists. split; [reflexivity|].
+    unfold arel in *. now rewrite !map_app, Ru, Rw.
 Qed.
 
-Definition ev_ok (ev : env -> tnode -> res (list onode)) : Prop :=
-  forall r t d, cons_e r = true -> ev r t = Ok d -> exists d', ev (senv s r) t = Ok d' /\ rel d d'.
-
-Lemma evals_ok ev : ev_ok ev -> forall ts r d, cons_e r = true -> evals_with ev r ts = Ok d ->
-  exists d', evals_with ev (senv s r) ts = Ok d' /\ rel d d'.
+(* props: the environment handed to a component is consistent, and substitution commutes with building it *)
+Lemma forallb_tl {A} (f : A -> bool) l : forallb f l = true -> forallb f (tl l) = true.
+Proof. destruct l; cbn; [auto|]. intro H. apply andb_true_iff in H. tauto. Qed.
+Lemma cons_sprint v : cons_v v = true -> cons_h (sprint v) = true.
 Proof.
-  intros Hev ts. induction ts as [|t ts IH]; intros r d Hr H; cbn in *.
+  induction v as [| b | x | l IH | b | h] using val_ind'; cbn [sprint cons_v]; auto.
+  - destruct b; reflexivity.
+  - intro H. unfold cons_h. rewrite !forallb_app. cbn [forallb cons_c1 andb]. rewrite andb_true_r.
+    apply forallb_tl.
+    induction IH as [|v l Hv _ IHl]; cbn [flat_map forallb]; [reflexivity|].
+    cbn [forallb] in H. apply andb_true_iff in H. destruct H as [H1 H2].
+    cbn [app forallb cons_c1 andb]. rewrite forallb_app, (IHl H2). unfold cons_h in Hv. rewrite (Hv H1). reflexivity.
+  - intro H. cbn. now rewrite H.
+Qed.
+Lemma cons_interp r v : cons_e r = true -> cons_h (interp r v) = true.
+Proof.
+  intro Hr. unfold interp, cons_h. induction v as [|g v IH]; cbn; [reflexivity|].
+  rewrite forallb_app, IH, andb_true_r. destruct g; [reflexivity|].
+  destruct (lookup r x) eqn:E; [|reflexivity]. apply cons_sprint. eapply lookup_cons; eauto.
+Qed.
+Lemma lit_sprint_subst v : forallb is_lit (sprint (subst s v)) = true.
+Proof.
+  induction v as [| b | x | l IH | b | h] using val_ind'; try reflexivity.
+  - destruct b; reflexivity.
+  - cbn [subst sprint]. rewrite !forallb_app. cbn [forallb is_lit andb]. rewrite andb_true_r.
+    apply forallb_tl.
+    induction IH as [|v l Hv _ IHl]; cbn [map flat_map forallb]; [reflexivity|].
+    cbn [app forallb is_lit andb]. rewrite forallb_app, Hv, IHl. reflexivity.
+Qed.
+Lemma lit_interp_senv r v : forallb is_lit (interp (senv s r) v) = true.
+Proof.
+  unfold interp. induction v as [|g v IH]; cbn; [reflexivity|]. rewrite forallb_app, IH, andb_true_r.
+  destruct g; [reflexivity|]. rewrite lookup_senv. destruct (lookup r x); cbn; [apply lit_sprint_subst|reflexivity].
+Qed.
+Lemma cons_mk_str h : cons_h h = true -> cons_v (mk_str h) = true.
+Proof. unfold mk_str. destruct (forallb is_lit h); cbn; auto. Qed.
+Lemma subst_mk_str r v : subst s (mk_str (interp r v)) = mk_str (interp (senv s r) v).
+Proof.
+  unfold mk_str at 2. rewrite lit_interp_senv, interp_subst. unfold mk_str.
+  destruct (forallb is_lit (interp r v)) eqn:E; cbn [subst]; [|reflexivity].
+  now rewrite (fill_lit _ s E).
+Qed.
+Lemma cons_e_app a b : cons_e (a ++ b) = cons_e a && cons_e b.
+Proof. apply forallb_app. Qed.
+Lemma senv_app a b : senv s (a ++ b) = senv s a ++ senv s b.
+Proof. apply map_app. Qed.
+Lemma prop_ok r p e : cons_e r = true -> eval_prop r p = Ok e ->
+  cons_e e = true /\ eval_prop (senv s r) p = Ok (senv s e).
+Proof.
+  intros Hr H. destruct p as [k v | k x]; cbn [eval_prop] in *.
+  - injection H as <-. split.
+    + cbn. rewrite andb_true_r. apply cons_mk_str. now apply cons_interp.
+    + cbn. now rewrite subst_mk_str.
+  - rewrite lookup_senv. destruct (lookup r x) as [w|] eqn:E; cbn [option_map].
+    + destruct (truthy_r w) as [b| | |] eqn:Et; try discriminate. cbn [bind] in H. injection H as <-.
+      pose proof (lookup_cons _ _ _ Hr E) as Hw.
+      rewrite (truthy_r_subst w b Hw Et). cbn [bind]. destruct b; cbn; [now rewrite Hw|]; split; reflexivity.
+    + injection H as <-. split; reflexivity.
+Qed.
+Lemma props_ok r p e : cons_e r = true -> eval_props r p = Ok e ->
+  cons_e e = true /\ eval_props (senv s r) p = Ok (senv s e).
+Proof.
+  intro Hr. revert e. induction p as [|a p IH]; intros e H; cbn [eval_props] in *.
+  - injection H as <-. split; reflexivity.
+  - destruct (eval_prop r a) as [x| | |] eqn:Ea; try discriminate. cbn [bind] in H.
+    destruct (eval_props r p) as [y| | |] eqn:Ep; try discriminate. cbn [bind] in H. injection H as <-.
+    destruct (prop_ok _ _ _ Hr Ea) as [Cx Hx]. destruct (IH _ eq_refl) as [Cy Hy].
+    rewrite Hx. cbn [bind]. rewrite Hy. cbn [bind]. rewrite cons_e_app, Cx, Cy, senv_app. split; reflexivity.
+Qed.
+
+Definition ev_ok (ev : clo -> env -> tnode -> res (list onode)) : Prop :=
+  forall c r t d, cons_c c = true -> cons_e r = true -> ev c r t = Ok d ->
+  exists d', ev (sclo c) (senv s r) t = Ok d' /\ rel d d'.
+
+Lemma evals_ok ev : ev_ok ev -> forall ts c r d, cons_c c = true -> cons_e r = true -> evals_with ev c r ts = Ok d ->
+  exists d', evals_with ev (sclo c) (senv s r) ts = Ok d' /\ rel d d'.
+Proof.
+  intros Hev ts. induction ts as [|t ts IH]; intros c r d Hc Hr H; cbn in *.
   - injection H as <-. exists []. split; reflexivity.
-  - destruct (ev r t) as [a| | |] eqn:Ea; try discriminate. cbn in H.
-    destruct (evals_with ev r ts) as [b| | |] eqn:Eb; try discriminate. cbn in H. injection H as <-.
-    destruct (Hev _ _ _ Hr Ea) as [a' [Ha' Ra]]. destruct (IH _ _ Hr Eb) as [b' [Hb' Rb]].
+  - destruct (ev c r t) as [a| | |] eqn:Ea; try discriminate. cbn in H.
+    destruct (evals_with ev c r ts) as [b| | |] eqn:Eb; try discriminate. cbn in H. injection H as <-.
+    destruct (Hev _ _ _ _ Hc Hr Ea) as [a' [Ha' Ra]]. destruct (IH _ _ _ Hc Hr Eb) as [b' [Hb' Rb]].
     rewrite Ha'. cbn. rewrite Hb'. cbn. eexists. split; [reflexivity|]. now apply rel_app.
 Qed.
-Lemma loop_ok ev : ev_ok ev -> forall v body items r d, cons_e r = true -> forallb cons_v items = true ->
-  loop_with ev v r body items = Ok d ->
-  exists d', loop_with ev v (senv s r) body (map (subst s) items) = Ok d' /\ rel d d'.
+Lemma loop_ok ev : ev_ok ev -> forall v body items c r d, cons_c c = true -> cons_e r = true -> forallb cons_v items = true ->
+  loop_with ev v c r body items = Ok d ->
+  exists d', loop_with ev v (sclo c) (senv s r) body (map (subst s) items) = Ok d' /\ rel d d'.
 Proof.
-  intros Hev v body items. induction items as [|it rest IH]; intros r d Hr Hi H; cbn in *.
+  intros Hev v body items. induction items as [|it rest IH]; intros c r d Hc Hr Hi H; cbn in *.
   - injection H as <-. exists []. split; reflexivity.
   - apply andb_true_iff in Hi. destruct Hi as [Hit Hrest].
-    destruct (evals_with ev ((v, it) :: r) body) as [a| | |] eqn:Ea; try discriminate. cbn in H.
-    destruct (loop_with ev v r body rest) as [b| | |] eqn:Eb; try discriminate. cbn in H. injection H as <-.
-    destruct (evals_ok ev Hev body ((v, it) :: r) a) as [a' [Ha' Ra]]; [cbn; now rewrite Hit|assumption|].
-    destruct (IH r b Hr Hrest Eb) as [b' [Hb' Rb]].
+    destruct (evals_with ev c ((v, it) :: r) body) as [a| | |] eqn:Ea; try discriminate. cbn in H.
+    destruct (loop_with ev v c r body rest) as [b| | |] eqn:Eb; try discriminate. cbn in H. injection H as <-.
+    destruct (evals_ok ev Hev body c ((v, it) :: r) a Hc) as [a' [Ha' Ra]]; [cbn; now rewrite Hit|assumption|].
+    destruct (IH c r b Hc Hr Hrest Eb) as [b' [Hb' Rb]].
     change (senv s ((v, it) :: r)) with ((v, subst s it) :: senv s r) in Ha'.
     cbn [loop_with map]. rewrite Ha'. cbn [bind]. rewrite Hb'. cbn [bind]. eexists. split; [reflexivity|]. now apply rel_app.
 Qed.
-
-Theorem eval_hole_param : forall fuel, ev_ok (eval fuel).
+Lemma chain_ok ev : ev_ok ev -> forall br el c r d, cons_c c = true -> cons_e r = true ->
+  chain_with ev c r br el = Ok d ->
+  exists d', chain_with ev (sclo c) (senv s r) br el = Ok d' /\ rel d d'.
 Proof.
-  induction fuel as [|f IH]; intros r t d Hr H; [discriminate|].
-  destruct t as [v | tag a kids | tag x | x th el | x lit th | v coll body]; cbn [eval] in *.
-  - injection H as <-. eexists. split; [reflexivity|]. unfold rel. cbn. now rewrite interp_subst.
-  - destruct (evals_with (eval f) r kids) as [ks| | |] eqn:Ek; try discriminate. cbn in H. injection H as <-.
-    destruct (evals_ok _ IH _ _ _ Hr Ek) as [ks' [Hk' Rk]]. rewrite Hk'. cbn.
-    eexists. split; [reflexivity|]. unfold rel in *. cbn. f_equal. f_equal.
-    + clear -Hr. induction a as [|x a IHa]; cbn [flat_map]; [reflexivity|].
-      rewrite !map_app, IHa. f_equal. now apply attr_subst.
-    + exact Rk.
-  - injection H as <-. eexists. split; [reflexivity|]. unfold rel. cbn. rewrite lookup_senv.
-    destruct (lookup r x); cbn; [now rewrite sprint_subst|reflexivity].
-  - rewrite lookup_senv. destruct (lookup r x) as [w|] eqn:E; cbn.
-    + rewrite truthy_subst by (eapply lookup_cons; eauto).
-      destruct (truthy w); eapply evals_ok; eauto.
-    + eapply evals_ok; eauto.
-  - rewrite lookup_senv. destruct (lookup r x) as [w|] eqn:E; cbn.
-    + destruct w; cbn; try (injection H as <-; exists []; split; reflexivity); try discriminate.
-      destruct (bytes_eqb s0 lit); [eapply evals_ok; eauto|].
-      injection H as <-. exists []. split; reflexivity.
-    + injection H as <-. exists []. split; reflexivity.
-  - rewrite lookup_senv. destruct (lookup r coll) as [w|] eqn:E; cbn.
-    + destruct w; cbn; try (injection H as <-; exists []; split; reflexivity); try discriminate.
-      eapply loop_ok; eauto. apply (lookup_cons _ _ _ Hr E).
-    + injection H as <-. exists []. split; reflexivity.
+  intros Hev br el c r d Hc Hr. induction br as [|[x th] rest IH]; cbn [chain_with]; intro H.
+  - eapply evals_ok; eauto.
+  - rewrite lookup_senv. destruct (lookup r x) as [w|] eqn:E; cbn [option_map]; [|auto].
+    destruct (truthy_r w) as [b| | |] eqn:Et; try discriminate. cbn [bind] in H.
+    rewrite (truthy_r_subst w b (lookup_cons _ _ _ Hr E) Et). cbn [bind].
+    destruct b; [eapply evals_ok; eauto|auto].
 Qed.
+
+Section W.
+Variable W : list (list tnode).
+Theorem eval_hole_param : forall fuel, ev_ok (eval W fuel).
+Proof.
+  induction fuel as [|f IH]; intros c r t d Hc Hr H; [discriminate|].
+  destruct t as [v | tag a kids | tag x | tag x kids | x th el | br el | x lit th | v coll body | fi p content | fb]; cbn [eval] in *.
+  - (* text *) injection H as <-. eexists. split; [reflexivity|]. unfold rel. cbn. now rewrite interp_subst.
+  - (* element *)
+    destruct (eval_attrs r a) as [at'| | |] eqn:Ea; try discriminate. cbn [bind] in H.
+    destruct (evals_with (eval W f) c r kids) as [ks| | |] eqn:Ek; try discriminate. cbn [bind] in H. injection H as <-.
+    destruct (attrs_subst _ _ _ Hr Ea) as [at2 [Ha2 Ra]].
+    destruct (evals_ok _ IH _ _ _ _ Hc Hr Ek) as [ks' [Hk' Rk]]. rewrite Ha2. cbn [bind]. rewrite Hk'. cbn [bind].
+    eexists. split; [reflexivity|]. unfold rel in *. cbn. f_equal. f_equal; [exact Ra|exact Rk].
+  - (* v-text *) injection H as <-. eexists. split; [reflexivity|]. unfold rel. cbn. rewrite lookup_senv.
+    destruct (lookup r x); cbn; [now rewrite sprint_subst|reflexivity].
+  - (* v-show *)
+    rewrite lookup_senv.
+    destruct (match lookup r x with Some w => truthy_r w | None => Ok false end) as [b| | |] eqn:Et; try discriminate.
+    cbn [bind] in H.
+    destruct (evals_with (eval W f) c r kids) as [ks| | |] eqn:Ek; try discriminate. cbn [bind] in H. injection H as <-.
+    destruct (evals_ok _ IH _ _ _ _ Hc Hr Ek) as [ks' [Hk' Rk]].
+    assert (Et' : match option_map (subst s) (lookup r x) with Some w => truthy_r w | None => Ok false end = Ok b).
+    { destruct (lookup r x) as [w|] eqn:E; cbn [option_map]; [|exact Et].
+      exact (truthy_r_subst w b (lookup_cons _ _ _ Hr E) Et). }
+    rewrite Et'. cbn [bind]. rewrite Hk'. cbn [bind].
+    eexists. split; [reflexivity|]. unfold rel in *. cbn. f_equal. f_equal; [destruct b; reflexivity|exact Rk].
+  - (* v-if / v-else *)
+    rewrite lookup_senv. destruct (lookup r x) as [w|] eqn:E; cbn [option_map].
+    + destruct (truthy_r w) as [b| | |] eqn:Et; try discriminate. cbn [bind] in H.
+      rewrite (truthy_r_subst w b (lookup_cons _ _ _ Hr E) Et). cbn [bind].
+      destruct b; eapply evals_ok; eauto.
+    + eapply evals_ok; eauto.
+  - (* chain *) eapply chain_ok; eauto.
+  - (* comparison with a literal *)
+    rewrite lookup_senv. destruct (lookup r x) as [w|] eqn:E; cbn [option_map].
+    + destruct w as [| b | t | l | b | h]; cbn [subst]; try (injection H as <-; exists []; split; reflexivity); try discriminate.
+      * destruct (bytes_eqb t lit); [eapply evals_ok; eauto|]. injection H as <-. exists []. split; reflexivity.
+      * destruct (forallb is_lit h) eqn:El; [|discriminate]. rewrite (fill_lit h s El).
+        destruct (bytes_eqb (fill [] h) lit); [eapply evals_ok; eauto|]. injection H as <-. exists []. split; reflexivity.
+    + injection H as <-. exists []. split; reflexivity.
+  - (* v-for *)
+    rewrite lookup_senv. destruct (lookup r coll) as [w|] eqn:E; cbn [option_map].
+    + destruct w as [| b | t | l | b | h]; cbn [subst]; try (injection H as <-; exists []; split; reflexivity); try discriminate.
+      * eapply loop_ok; eauto. apply (lookup_cons _ _ _ Hr E).
+      * destruct (forallb is_lit h); [|discriminate]. injection H as <-. exists []. split; reflexivity.
+    + injection H as <-. exists []. split; reflexivity.
+  - (* include *)
+    destruct (nth_error W fi) as [body|]; [|discriminate].
+    destruct (eval_props r p) as [pe| | |] eqn:Ep; try discriminate. cbn [bind] in H.
+    destruct (props_ok _ _ _ Hr Ep) as [Cpe Hpe]. rewrite Hpe. cbn [bind]. rewrite <- senv_app.
+    apply (evals_ok _ IH body (CSome r content c) (pe ++ r) d); [cbn; now rewrite Hr, Hc|now rewrite cons_e_app, Cpe, Hr|exact H].
+  - (* slot *)
+    destruct c as [|rc [|x0 content] outer]; cbn [sclo].
+    + apply (evals_ok _ IH fb CNone r d); auto.
+    + apply (evals_ok _ IH fb (CSome rc [] outer) r d); auto.
+    + cbn in Hc. apply andb_true_iff in Hc. destruct Hc as [Hrc Ho].
+      apply (evals_ok _ IH (x0 :: content) outer rc d); auto.
+Qed.
+End W.
 End Param.
 
 
-(* non-vacuity: a value forwarded through a loop into text, an attribute and v-text
-   is inert; the same value used in a comparison is not (the hole run reports it) *)
+(* non-vacuity: a value forwarded through a loop into text, an attribute, v-text, a component's prop and the
+   slot content handed to it is inert; the same value used in a comparison is not (the hole run reports it) *)
+Definition w_demo : list (list tnode) :=
+  [[TElem [x75] [ABound [x74] 7] [TText [Var 8]; TSlot [TText [Lit [x66]]]]]].
 Definition t_ok : tnode :=
-  TFor 1 0 [TElem [x61] [ABound [x74] 1; AStatic [x63] [Lit [x78]; Var 1]] [TText [Lit [x3a]; Var 1]; TVText [x70] 1]].
-Example inert_case : exists d, eval 5 [(0, VList [VHole true; VStr [x7a]])] t_ok = Ok d.
+  TFor 1 0 [TElem [x61] [ABound [x74] 1; AStatic [x63] [Lit [x78]; Var 1]] [TText [Lit [x3a]; Var 1]; TVText [x70] 1;
+            TInclude 0 [PBound 7 1; PStatic 8 [Lit [x4c]; Var 1]] [TShow [x69] 1 [TText [Var 1]]]]].
+Example inert_case : exists d, eval w_demo 7 CNone [(0, VList [VHole true; VStr [x7a]])] t_ok = Ok d.
 Proof. vm_compute. eexists. reflexivity. Qed.
-Example inspected_case : eval 5 [(1, VHole true)] (TEq 1 [x61] [TText [Lit [x61]]]) = ErrInspect.
+Example inspected_case : eval w_demo 5 CNone [(1, VHole true)] (TEq 1 [x61] [TText [Lit [x61]]]) = ErrInspect.
+Proof. reflexivity. Qed.
+(* a string assembled from a literal and a hole cannot have its truthiness decided without looking *)
+Example inspected_mixed : eval [[TIf 8 [] []]] 5 CNone [(1, VHole true)] (TInclude 0 [PStatic 8 [Lit [x66]; Var 1]] []) = ErrInspect.
 Proof. reflexivity. Qed.
